@@ -323,6 +323,22 @@ pub fn generate(thorough: bool) -> (String, usize) {
                     )
                     .unwrap();
                     writeln!(s, "        let (wire, mut conn) = conn_with(&[]);\n        match conn.chain_{}{fish}({a}) {{\n            Ok(chain) => {{ let _ = complete_or_stall(chain.send()).map(|r| r.map(|_| ())); }}\n            Err(e) => check(sink, &what, \"chain-start-refused\", false, &format!(\"{{e:?}}\")),\n        }}\n        check_frames(sink, &what, \"chain-start\", &wire, &[&expect]);", m.rust_name).unwrap();
+                    // a final reply that does not decode as the declared output: the stream reports it
+                    // and is over - the reply of the next exchange on the connection is not its business
+                    if m.out != Out::Unit && c == 0 {
+                        let bad = match m.out {
+                            Out::Owned => "{\"parameters\":{\"v\":\"not a number\"}}",
+                            _ => "{\"parameters\":{\"s\":17}}",
+                        };
+                        writeln!(
+                            s,
+                            "        let (_w, mut conn) = conn_with(&[{:?}, {:?}, \"{{\\\"parameters\\\":{{\\\"marker\\\":1}}}}\"]);\n        {{\n            let st = complete_or_stall(conn.{}({a}));\n            if let Some(Ok(st)) = st {{\n                let mut st = std::pin::pin!(st);\n                let mut seen = Vec::new();\n                for _ in 0..6 {{\n                    match next_item(st.as_mut()) {{\n                        Some(Some(Ok(Ok(_)))) => seen.push(\"item\"),\n                        Some(Some(_)) => seen.push(\"error\"),\n                        Some(None) => {{ seen.push(\"end\"); break; }}\n                        None => {{ seen.push(\"pending\"); break; }}\n                    }}\n                }}\n                check(sink, &what, \"stream-with-an-undecodable-final-reply\", seen == [\"item\", \"error\", \"end\"] || seen == [\"item\", \"error\"], &format!(\"{{seen:?}}\"));\n            }}\n        }}\n        let next = complete_or_stall(conn.receive_reply::<serde_json::Value, PErr>());\n        check(sink, &what, \"stream-leaves-the-next-exchange-alone\", matches!(&next, Some(Ok(Ok(r))) if r.parameters().map_or(false, |p| p[\"marker\"] == 1)), &format!(\"{{next:?}}\"));",
+                            item("true"),
+                            bad,
+                            m.rust_name
+                        )
+                        .unwrap();
+                    }
                 }
             }
             writeln!(s, "    }}").unwrap();
